@@ -214,6 +214,30 @@ def c02_families(tier, seed, ids=None):
                                                     N("acc")])))
                 special.append(mk(ids, [cnt3, none, head, main, call("main"), call("main")], {"early_return_then_loops": [k_it, ret_at, empty_pos]}))
     out.append(("lockstep+naked", special, ("value",)))
+    # loops written directly inside the bodies of loops: k1 outer iterators x k2 inner iterators (x an innermost loop), the inner loop first / last /
+    # only under a condition in the outer body; at top level, in a function, in a generator consumed by another loop
+    nm = []
+    srcs = [lambda lo: call("cnt", I(lo + 3)), lambda lo: call("fromto", I(lo), I(lo + 3)), lambda lo: call("elems", lst([I(lo + 7), I(lo + 8), I(lo + 9), I(lo + 10)]))]
+    for k1, k2, k3, pos, where in itertools.product((1, 2, 3), (1, 2), (0, 1), ("first", "last", "cond"), ("top", "fn", "gen")):
+        if tier == "quick" and shash((k1, k2, k3, pos, where, seed)) % 3 != 0 and not (k1 >= 2 and k3 == 0 and pos == "last"):
+            continue
+        ov = ["oa", "ob", "oc"][:k1]
+        iv = ["ia", "ib"][:k2]
+        rec = assign("acc", bin_("+", N("acc"), lst([lst([N(v) for v in ov + iv] + ([N("z")] if k3 else []))]))) if where != "gen" else y(lst([N(v) for v in ov + iv] + ([N("z")] if k3 else [])))
+        innermost = fr(["z"], [call("fromto", I(0), I(2))], rec) if k3 else rec
+        inner = fr(iv, [srcs[(j + 1) % 3](j) for j in range(k2)], innermost)
+        mark = assign("acc", bin_("+", N("acc"), lst([N(ov[0])]))) if where != "gen" else y(N(ov[0]))
+        body = {"first": block([inner, mark]), "last": block([mark, inner]), "cond": block([mark, iff(bin_("==", bin_("%", N(ov[0]), I(2)), I(1)), inner)])}[pos]
+        outer = fr(ov, [srcs[j % 3](j) for j in range(k1)], body)
+        if where == "top":
+            items = [GEN_DEFS["cnt"], assign("acc", lst([])), outer, N("acc"), assign("acc", lst([])), outer, N("acc")]
+        elif where == "fn":
+            items = [GEN_DEFS["cnt"], assign("run", fn([], block([assign("acc", lst([])), outer, N("acc")]))), call("run"), call("run")]
+        else:
+            items = [GEN_DEFS["cnt"], assign("gen", fn([], outer)), assign("acc", lst([])), fr(["e"], [call("gen")], assign("acc", bin_("+", N("acc"), lst([N("e")])))), N("acc"),
+                     assign("col", fn([], block([assign("a", lst([])), fr(["e", "n"], [call("gen"), call("fromto", I(0), I(9))], assign("a", bin_("+", N("a"), lst([N("e"), N("n")])))), N("a")]))), call("col")]
+        nm.append(mk(ids, items, {"nest": [k1, k2, k3, pos, where]}))
+    out.append(("loops nested directly in loop bodies: iterator counts x position x placement", nm, ("value",)))
     return out
 
 
@@ -250,8 +274,26 @@ def pure_family():
     echo = assign("echo", fn(["x"], y(N("x"))))
     fam.append(("yieldval", [echo, assign("yacc", fn(["n"], block([assign("s", I(0)), fr(["i"], [call("fromto", I(0), N("n"))], assign("s", bin_("+", N("s"), call("echo", bin_("+", N("i"), I(10)))))), N("s")])))], call("yacc", I(4))))
     fam.append(("yieldval-doubling", [echo, assign("ydbl", fn(["n"], block([assign("v", I(1)), assign("k", I(0)), wh(bin_("<", N("k"), N("n")), block([assign("v", bin_("*", call("echo", N("v")), I(2))), assign("k", bin_("+", N("k"), I(1)))])), N("v")])))], call("ydbl", I(5))))
+    ygen = assign("ygen", fn([], block([assign("k", I(10)), y(fn(["x"], bin_("+", N("x"), N("k")))), assign("k", I(99))])))
+    yfirst = assign("yfirst", fn([], fr(["h"], [call("ygen")], ret(N("h")))))
+    yprobe = assign("yprobe", fn(["n"], block([assign("add", call("yfirst")), assign("a", call("add", I(1))), fr(["i"], [call("fromto", I(0), N("n"))], assign("s", N("i"))),
+                                               fr(["i", "j"], [call("fromto", I(0), N("n")), call("fromto", I(5), I(9))], assign("s", bin_("+", N("i"), N("j")))), lst([N("a"), call("add", I(1))])])))
+    for n in (0, 3):
+        fam.append(("yielded-closure-%d" % n, [ygen, yfirst, yprobe], call("yprobe", I(n))))
+    # a closure defined inside a loop body of a generator, collected by the consumer, called after the generator is exhausted
+    cgen = assign("cgen", fn(["m"], fr(["i"], [call("fromto", I(0), N("m"))], block([assign("c", bin_("*", N("i"), I(10))), y(fn([], bin_("+", N("c"), N("m"))))]))))
+    ccol = assign("ccol", fn(["m"], block([assign("fs", lst([])), fr(["f"], [call("cgen", N("m"))], assign("fs", bin_("+", N("fs"), lst([call("f")])))), N("fs")])))
+    fam.append(("closures-yielded-in-loop", [cgen, ccol], call("ccol", I(3))))
     probe = assign("probe", fn([], block([iff(bin_(">", N("gzero"), I(0)), block([assign("pa", I(1)), assign("pb", I(2)), assign("pc", I(3))])), bin_("+", bin_("+", call("toa", N("pa")), call("toa", N("pb"))), call("toa", N("pc")))])))
     dq = assign("deepq", fn(["n"], ife(bin_("==", N("n"), I(0)), call("probe"), call("deepq", bin_("-", N("n"), I(1))))))
+    # functions with parameters whose locals are assigned only on some paths: a call on the other path reads nil whatever an earlier call left
+    flast = assign("flast", fn(["ary", "pred"], block([fr(["e"], [call("elems", N("ary"))], iff(call("pred", N("e")), assign("found", N("e")))), N("found")])))
+    big = fn(["x"], bin_(">", N("x"), I(2)))
+    A = call("toa", call("flast", lst([I(1), I(2)]), big))
+    B = call("toa", call("flast", lst([I(1), I(3)]), big))
+    fam.append(("unassigned-locals-params", [flast], bin_("+", bin_("+", A, B), A)))
+    fthree = assign("fthree", fn(["p", "q", "r"], block([iff(bin_(">", N("p"), I(0)), block([assign("la", N("p")), assign("lb", N("q")), assign("lc", N("r"))])), bin_("+", bin_("+", call("toa", N("la")), call("toa", N("lb"))), call("toa", N("lc")))])))
+    fam.append(("unassigned-locals-3params", [fthree], bin_("+", bin_("+", call("fthree", I(0), I(8), I(9)), call("fthree", I(7), I(8), I(9))), call("fthree", I(0), I(5), I(6)))))
     for n in (59, 61, 62, 63):
         fam.append(("unassigned-locals-%d" % n, [assign("gzero", I(0)), probe, dq], call("deepq", I(n))))
     for n in (5, 130, 200):
@@ -299,7 +341,7 @@ def c03_families(tier, seed, ids=None):
     out = []
     ss = []
     for (fname, defs, c), (hname, hist) in itertools.product(fam, histories()):
-        if tier == "quick" and (shash((fname, hname, seed)) % 3 != 0) and hname not in ("none",) and not fname.startswith(("closgen", "unassigned", "yieldval")):
+        if tier == "quick" and (shash((fname, hname, seed)) % 3 != 0) and hname not in ("none",) and not fname.startswith(("closgen", "unassigned", "yieldval", "yielded-closure", "closures-yielded")):
             continue
         items = list(defs) + list(hist)
         seen_defs = set()
@@ -419,6 +461,13 @@ def c04_session(ids, K, A, V, flow, width):
     elif flow == "nested":
         body += [assign("g", g), lst([lst([N("g"), I(1)])])]
         use = [assign("ka", call("ff", I(2))), call("deep", I(40)), assign("kk", ix1(ix1(N("ka"), I(0)), I(0))), call("kk")]
+    elif flow == "handed-back":
+        # returned from its definer, then passed to and returned by another function (whose own frame has other values in the same slots)
+        body += [assign("g", g), assign(X, bin_("+", N(X), I(1000))), N("g")]
+        use = [assign("pick", fn(["k", "f", "z"], block([assign("loc", bin_("+", N("k"), I(1))), N("f")]))), assign("kk", call("pick", I(100), call("ff", I(2)), I(300))), call("deep", I(40)), call("kk")]
+    elif flow == "up-through-recursion":
+        body += [assign("g", g), assign(X, bin_("+", N(X), I(1000))), N("g")]
+        use = [assign("climb", fn(["n", "f"], ife(bin_("==", N("n"), I(0)), N("f"), call("climb", bin_("-", N("n"), I(1)), N("f"))))), assign("kk", call("climb", I(3), call("ff", I(2)))), call("deep", I(40)), call("kk")]
     else:  # stored
         body += [g]
         use = [assign("kk", call("ff", I(2))), call("deep", I(60)), fr(["z"], [call("fromto", I(0), I(3))], N("z")), call("kk"), call("kk")]
@@ -437,9 +486,9 @@ def c04_families(tier, seed, ids=None):
     ids = ids or Ids()
     rnd = random.Random(seed)
     combos = list(itertools.product(["param", "local", "forvar", "shadow"], ["read", "write", "rw", "wr"],
-                                    ["direct", "closure1", "closure2", "recursion"], ["none", "down", "up", "array", "nested", "stored"], [1, 3, 130]))
+                                    ["direct", "closure1", "closure2", "recursion"], ["none", "down", "up", "array", "nested", "stored", "handed-back", "up-through-recursion"], [1, 3, 130]))
     if tier == "quick":
-        combos = rnd.sample(combos, 220)
+        combos = rnd.sample(combos, 220) + [c for c in combos if c[3] in ("handed-back", "up-through-recursion") and c[1] == "read" and c[2] == "direct" and c[4] == 3]
     ss = [c04_session(ids, *c) for c in combos]
     out = [("scoping shapes", ss, ("value",))]
     # a name introduced by a statement (loop variable, assignment target) that is also a variable of an enclosing scope and is read
@@ -654,7 +703,12 @@ def good_items(rnd):
     return [assign("sa", I(rnd.randint(1, 9))), assign("sb", bin_("+", N("sa"), I(1))), assign("sf", fn(["n"], bin_("+", N("n"), N("sa")))),
             call("sf", I(2)), assign("sacc", lst([])), fr(["q"], [call("fromto", I(0), I(3))], assign("sacc", bin_("+", N("sacc"), lst([call("sf", N("q"))])))),
             N("sacc"), lst([N("sa"), N("sb"), N("ga"), N("gl"), N("gw"), N("gq")]) if False else lst([N("sa"), N("sb")]),
-            call("write", call("toa", lst([N("sa"), N("sb"), N("sacc")]))), fr(["q"], [call("elems", N("sacc"))], N("q"))]
+            call("write", call("toa", lst([N("sa"), N("sb"), N("sacc")]))), fr(["q"], [call("elems", N("sacc"))], N("q")),
+            # several iterator contexts alive at once: a three-iterator lock-step loop and a triple nesting
+            assign("szip", lst([])), fr(["za", "zb", "zc"], [call("fromto", I(0), I(3)), call("fromto", I(10), I(13)), call("fromto", I(20), I(23))], assign("szip", bin_("+", N("szip"), lst([bin_("+", bin_("+", N("za"), N("zb")), N("zc"))])))),
+            N("szip"), assign("snest", I(0)),
+            fr(["na"], [call("fromto", I(0), I(2))], fr(["nb"], [call("fromto", I(0), I(2))], fr(["nc"], [call("fromto", I(0), I(2))], assign("snest", bin_("+", bin_("*", N("snest"), I(2)), bin_("+", N("na"), bin_("+", N("nb"), N("nc")))))))),
+            N("snest")]
 
 
 STATE_PROBE = [bin_("==", N(v), N(v)) for v in []]
@@ -1112,6 +1166,16 @@ def c19_families(tier, seed, ids=None):
                                   call("sum", bin_("+", N("row"), N("row")) if row["t"] == "list" else N("row")), bin_("+", N("row"), I(1)),
                                   assign("g", fn(["r"], block([y(I(1)), ix1(N("r"), I(77))]))), assign("tot", fn(["r"], fr(["v"], [call("g", N("r"))], N("v")))), call("tot", N("row"))],
                      {"err": "abbreviated", "where": "row %d" % k}))
+    # the increment forms (x = x + 1, x = 1 + x: one instruction in the compiled code) failing on a value that is not a number:
+    # the report must show the value the instruction saw
+    for k, (vname, v) in enumerate([("string", St("50")), ("array", lst([I(1), I(2)])), ("bool", Bo(True)), ("function", N("two")), ("nil", N("nosuch")), ("long string", St("abcdefghijklmnopqrstuvwxyz"))]):
+        for form in ("x+1", "1+x"):
+            inc = lambda nm: assign(nm, bin_("+", N(nm), I(1)) if form == "x+1" else bin_("+", I(1), N(nm)))
+            ss.append(mk(ids, base + ([assign("gs", v)] if vname != "nil" else []) + [inc("gs") if vname != "nil" else inc("gnone"),
+                                      assign("f", fn(["q", "n"], block([assign("k", I(0)), wh(bin_("<", N("k"), N("n")), block([assign("k", bin_("+", N("k"), I(1))), inc("q")])), N("q")]))),
+                                      call("f", v, I(2)), assign("h", fn(["cb", "x"], call("cb", N("x"), I(1)))), call("h", N("f"), v),
+                                      assign("g", fn(["q"], block([y(I(1)), inc("q"), y(N("q"))]))), fr(["i"], [call("g", v)], N("i")), call("f", I(5), I(2))],
+                         {"err": "increment", "where": "%s %s" % (vname, form)}))
     out = [("every error class x call depth / function-valued parameter / closure / reassigned parameter / loop body / generator / generator of generator", ss, ("value", "report"))]
     rs = gens.random_sessions(60 if tier == "quick" else 3000, seed, "c19", p_ill=0.2, first_id=800000)
     out.append(("random sessions with type confusion", rs, ("value", "report")))
